@@ -306,6 +306,12 @@ def run(rep, tier, seed):
             dup = RuleDescriptor(id=mk(bits_of(r0_.id), rnd.choice([L, R])), field_descriptors=gen_rule(rnd, pd, '1', kinds=('vs', 'vsv', 'lsb')).field_descriptors)
             rules.append(dup)
         ctx = Context(id='ctx%d' % i, description='d %d' % (i % 3), interface_id='if%d' % (i % 2), parser_id=stack, ruleset=rules)
+        if i % 3 == 1:
+            # free texts as operators write them: comment markers of other languages, quotes, backslashes, control characters, JSON inside a
+            # string, non-ASCII -- they are data, and come back as they went
+            TEXTS = ['uplink rules /* lab gateway only */ revision 3', '*/ closes nothing /*', 'a /* b', 'c */ d', 'x // y', '# z', 'he said "hi"', 'back\\slash \\" mix',
+                     'new\nline', 'tab\there', '\u00fcn\u00efc\u00f6d\u00e9 \u2603', '{"a": [1, 2]}', '', ' ', 'null', 'true', '<!-- -->', '%s %d {}', "it's", '\x00\x1f']
+            ctx = Context(id=rnd.choice(TEXTS) + str(i), description=rnd.choice(TEXTS), interface_id=rnd.choice(TEXTS), parser_id=stack, ruleset=rules)
         t = ['J', 'context', str(text_code(ctx.id)), str(text_code(ctx.description)), str(text_code(ctx.interface_id)), str(text_code(ctx.parser_id)), str(len(rules))]
         for r in rules:
             t += rule_tokens(r)
